@@ -304,3 +304,135 @@ func leanLockFacts(facts []lockFact, err error) string {
 	b.WriteString("]\n")
 	return b.String()
 }
+
+// heldSend: a mutex of a handler package that is held while a stanza is written to the session.
+// The write can block for as long as the peer does not read; a handler that takes the same mutex
+// then stops the serve goroutine from reading, and a peer that wants to finish writing before it
+// reads again is never drained: a deadlock made of the library's lock and the two transport
+// directions.  (Session's own locks in session.go are the transmit path itself and are
+// classified separately above.)
+type heldSend struct {
+	Fn, Mutex, Callee string
+}
+
+var sessionSend = map[string]bool{"Send": true, "SendElement": true, "SendIQ": true, "SendIQElement": true, "SendMessage": true,
+	"SendMessageElement": true, "SendPresence": true, "SendPresenceElement": true, "Encode": true, "EncodeElement": true,
+	"EncodeIQ": true, "EncodeIQElement": true, "EncodeMessage": true, "EncodeMessageElement": true, "UnmarshalIQ": true,
+	"UnmarshalIQElement": true, "IterIQ": true, "IterIQElement": true}
+
+func isSessionPtr(t types.Type) bool {
+	p, ok := t.(*types.Pointer)
+	if !ok {
+		return false
+	}
+	n, ok := p.Elem().(*types.Named)
+	return ok && n.Obj().Name() == "Session" && n.Obj().Pkg() != nil && n.Obj().Pkg().Path() == modPath
+}
+
+func heldAcrossSend(l *loaded, filter func(string) bool) []heldSend {
+	var out []heldSend
+	for i, file := range l.Files {
+		if filter != nil && !filter(l.Names[i]) {
+			continue
+		}
+		for _, d := range file.Decls {
+			fd, ok := d.(*ast.FuncDecl)
+			if !ok || fd.Body == nil {
+				continue
+			}
+			name := l.Pkg.Name() + "." + recvName(fd) + fd.Name.Name
+			sends := func(n ast.Node, held map[string]bool) {
+				ast.Inspect(n, func(m ast.Node) bool {
+					switch m := m.(type) {
+					case *ast.FuncLit:
+						return false
+					case *ast.CallExpr:
+						if sel, ok := m.Fun.(*ast.SelectorExpr); ok && sessionSend[sel.Sel.Name] {
+							if t := l.Info.TypeOf(sel.X); t != nil && isSessionPtr(t) {
+								for x := range held {
+									out = append(out, heldSend{Fn: name, Mutex: x, Callee: sel.Sel.Name})
+								}
+							}
+						}
+					}
+					return true
+				})
+			}
+			var walk func(list []ast.Stmt, held map[string]bool)
+			walk = func(list []ast.Stmt, held map[string]bool) {
+				h := map[string]bool{}
+				for k := range held {
+					h[k] = true
+				}
+				for _, st := range list {
+					if x, op, deferred := lockCall(l.Info, st); op != "" {
+						switch {
+						case op == "lock" && !deferred:
+							h[x] = true
+						case op == "unlock" && !deferred:
+							delete(h, x)
+						}
+						continue // defer X.Unlock(): held to the end of the function
+					}
+					switch st := st.(type) {
+					case *ast.BlockStmt:
+						walk(st.List, h)
+					case *ast.IfStmt:
+						if len(h) > 0 {
+							if st.Init != nil {
+								sends(st.Init, h)
+							}
+							sends(st.Cond, h)
+						}
+						walk(st.Body.List, h)
+						if b, ok := st.Else.(*ast.BlockStmt); ok {
+							walk(b.List, h)
+						} else if st.Else != nil {
+							walk([]ast.Stmt{st.Else}, h)
+						}
+					case *ast.ForStmt:
+						walk(st.Body.List, h)
+					case *ast.RangeStmt:
+						walk(st.Body.List, h)
+					case *ast.SwitchStmt:
+						for _, c := range st.Body.List {
+							walk(c.(*ast.CaseClause).Body, h)
+						}
+					case *ast.TypeSwitchStmt:
+						for _, c := range st.Body.List {
+							walk(c.(*ast.CaseClause).Body, h)
+						}
+					case *ast.SelectStmt:
+						for _, c := range st.Body.List {
+							walk(c.(*ast.CommClause).Body, h)
+						}
+					default:
+						if len(h) > 0 {
+							sends(st, h)
+						}
+					}
+				}
+			}
+			walk(fd.Body.List, map[string]bool{})
+		}
+	}
+	return out
+}
+
+func leanHeldSends(hs []heldSend, ok bool) string {
+	var b strings.Builder
+	b.WriteString("/-- mutexes of handler packages held across a write to the session: (function, mutex, callee) -/\n")
+	if !ok {
+		b.WriteString("def locksAcrossSend : Option (List (String × String × String)) := none\n")
+		return b.String()
+	}
+	b.WriteString("def locksAcrossSend : Option (List (String × String × String)) := some [")
+	for i, h := range hs {
+		if i > 0 {
+			b.WriteString(", ")
+		}
+		fmt.Fprintf(&b, "(%q, %q, %q)", h.Fn, h.Mutex, h.Callee)
+	}
+	b.WriteString("]\n")
+	return b.String()
+}
